@@ -132,6 +132,15 @@ func genC15(c *Ctx) {
 			emit(nil, nil, map[string]string{c15Plain[field-2]: v}, class)
 		}
 	}
+	// long values: any cap, window or chunking of the escaped text must not cut an escape sequence
+	for _, n := range []int{255, 256, 511, 512, 1019, 1020, 1021, 1022, 1023, 1024, 1025, 1026, 1027, 2047, 2048, 4095, 4096} {
+		for _, tail := range []string{"\\", "\"", "\n", "<", "\\\\", "'", "\x00"} {
+			long := strings.Repeat("a", n) + tail
+			emit(nil, []string{long}, map[string]string{"Color": "red", "Width": "1px"}, "long-font")
+			emit(nil, []string{long, ";background-image:url(//evil.example/x);x:", long}, map[string]string{"Color": "red"}, "long-font")
+			emit([]string{"https://x.example/" + long}, nil, map[string]string{"Color": "red"}, "long-url")
+		}
+	}
 	nf := 2 + len(c15Plain)
 	emit(nil, nil, nil, "empty")
 	all := append(append([]string{}, cssHostile...), cssBenign...)
